@@ -173,6 +173,78 @@ fn check_stream(out: &mut Out, rng: &mut Rng, msgs: &[StructureTag], encs: &[Vec
     }
 }
 
+/// End to end through the REAL `Framed<_, LdapCodec>` of a live connection (scripted transport, one read
+/// per chunk): a search's response stream — entries of different sizes and the final result — is delivered to
+/// the caller identically under every segmentation.  (`feed_real` above re-enacts FramedRead's loop around the
+/// decoder entry point, which builds its parser per call; this section covers state that lives in the codec or
+/// in the connection between reads.)
+fn e2e(thorough: bool, rng: &mut Rng, out: &mut Out) {
+    use crate::scen::{run_script, OpKind, Step};
+    let nstreams = if thorough { 60 } else { 8 };
+    for si in 0..nstreams {
+        let k = rng.range(1, 4) as usize;
+        // entry sizes: one clearly longer than the others so that short messages follow a long split one
+        let mut frames: Vec<Vec<u8>> = vec![];
+        let mut want: Vec<String> = vec![];
+        for j in 0..k {
+            let pad = if j == 0 { rng.range(40, 300) as usize } else { rng.below(30) as usize };
+            let tok = 700 + j as u64;
+            let body = cons(1, *rng.pick(&[4u64, 19, 25]), vec![
+                prim(0, 4, format!("tok{}", tok).into_bytes()),
+                cons(0, 16, vec![cons(0, 16, vec![prim(0, 4, b"a".to_vec()), cons(0, 17, vec![prim(0, 4, vec![0x61; pad])])])]),
+            ]);
+            frames.push(real_encode(&cons(0, 16, vec![prim(0, 2, vec![1]), body])));
+            want.push(format!("item:entry:{}", tok));
+        }
+        frames.push(crate::scen::result_frame(1, 5, 799));
+        want.push(String::from("item:done:799"));
+        let stream: Vec<u8> = frames.concat();
+        let n = stream.len();
+        let bounds: Vec<usize> = frames.iter().scan(0, |a, f| { *a += f.len(); Some(*a) }).collect();
+        let mut cutsets: Vec<Vec<usize>> = vec![vec![], (1..n).collect(), bounds[..bounds.len() - 1].to_vec()];
+        // the first (long) message across two reads, completed alone / together with everything that follows
+        let f0 = frames[0].len();
+        for c in [1usize, 2, f0 / 2, f0 - 1] {
+            cutsets.push(vec![c]);
+            cutsets.push(vec![c, f0]);
+            let mut v = vec![c];
+            v.extend(bounds.iter().filter(|b| **b < n));
+            v.sort_unstable(); v.dedup();
+            cutsets.push(v);
+        }
+        for _ in 0..(if thorough { 12 } else { 4 }) {
+            let kk = rng.range(1, 6);
+            let mut cs: Vec<usize> = (0..kk).map(|_| rng.range(1, n as u64 - 1) as usize).collect();
+            cs.sort_unstable(); cs.dedup();
+            cutsets.push(cs);
+        }
+        for cuts in cutsets {
+            let mut sc = vec![Step::Issue { kind: OpKind::Search, tmo_ms: None }, Step::Settle];
+            let chunks = split_at(&stream, &cuts);
+            for c in &chunks {
+                if !c.is_empty() {
+                    sc.push(Step::Raw { bytes: c.to_vec(), log: String::new() });
+                    sc.push(Step::Settle);
+                }
+            }
+            for _ in 0..want.len() {
+                sc.push(Step::Next(0));
+                sc.push(Step::Settle);
+            }
+            sc.push(Step::Close);
+            sc.push(Step::Settle);
+            crate::out::mark(&format!("framing.e2e stream={} cuts={:?}", hex(&stream), cuts));
+            let o = run_script(&sc);
+            let got: Vec<String> = o.trace.iter().filter(|t| t.starts_with("cli next 0 ")).map(|t| t.split(' ').nth(4).unwrap_or("?").to_string()).collect();
+            let label = format!("stream#{} msgs={} len={} cuts={:?}", si, frames.len(), n, if cuts.len() > 8 { cuts[..8].to_vec() } else { cuts.clone() });
+            out.case(&format!("e2e {}", label), !cuts.is_empty());
+            out.stat("e2e.runs");
+            out.r(&format!("framing.e2e-delivery-independent-of-segmentation {}", label), got == want,
+                  &format!("expected {:?} got {:?} (stream {})", want, got, hex(&stream[..n.min(80)])));
+        }
+    }
+}
+
 pub fn run(thorough: bool, mut rng: Rng, mut out: Out) {
     // single messages: every proper prefix is "need more" and leaves the buffer untouched
     let nsingle = if thorough { 3000 } else { 300 };
@@ -228,5 +300,6 @@ pub fn run(thorough: bool, mut rng: Rng, mut out: Out) {
         out.stat("big.streams");
         check_stream(&mut out, &mut rng, &msgs, &encs, thorough, "big");
     }
+    e2e(thorough, &mut rng, &mut out);
     out.finish("streams of 1..6 generated LDAP messages (all response kinds, minimal and non-minimal length forms, sizes 7 B .. 70 KiB, 1.1 MiB in thorough) cut into read chunks: all 2^(n-1) partitions for streams <= 12 (15 thorough) bytes, every single cut, random pairs and k-cuts, one byte at a time, all at once; every proper prefix of every single message; non-trivial = at least one cut; distinct by FNV of (stream prefix, cuts)");
 }
